@@ -13,7 +13,7 @@
 (*         instructions, handed to the commands it starts)                 *)
 (*   rnd   random generator: seed and number of draws since seeding        *)
 (*                                                                         *)
-(* One AWK program (harness/c14/program.go) has 38 modes ("run kinds"),    *)
+(* One AWK program (harness/c14/program.go) has 43 modes ("run kinds"),    *)
 (* selected by the variable `mode` given through Config.Vars; every mode   *)
 (* first prints a fingerprint of all the state it can see in BEGIN, then   *)
 (* does what its kind says.  Run(st, kind, cfg) is the transcription of    *)
@@ -88,6 +88,21 @@
 (*    them.                                                                *)
 (*  - what the Config switches per run: Chars (c6), NoExec / NoFileWrites  *)
 (*    / NoFileReads / NoArgVars (c7), `var=value` operands (c5 assigns g). *)
+(*                                                                         *)
+(* Third extension:                                                        *)
+(*  - formatted output.  fp() formats with printf and sprintf: %c of       *)
+(*    numbers above 127 and of strings that start with a multi-byte        *)
+(*    character, %s of a number, %d -- with format strings that are the    *)
+(*    same text in every run; the kind fmtc with one built at run time.    *)
+(*    What they yield follows the Config (Chars) and the variables         *)
+(*    (CONVFMT) of the run that executes them, whatever an earlier run     *)
+(*    that used the same format string was configured with (FmtLine).      *)
+(*  - nested calls.  The kinds dp_* call a user-defined function           *)
+(*    cfg.depth deep (c8..c11: 400, 700, CallLimit, CallLimit + 1) and     *)
+(*    there return, fail, exit or are cancelled.  A new interpreter allows *)
+(*    CallLimit nested calls; calls a run was aborted in (pr.depth) are    *)
+(*    not pending in the next run, so a probe may again nest CallLimit     *)
+(*    deep, whatever earlier runs were aborted how deep.                   *)
 (***************************************************************************)
 EXTENDS Csv, TLC
 
@@ -133,6 +148,7 @@ PrInit == [line |-> <<>>, nf |-> 0, nr |-> 0, fnr |-> 0, filename |-> <<>>, rsta
            chars |-> FALSE, sandbox |-> FALSE,    \* Config.Chars; Config.NoExec + NoFileWrites + NoFileReads + NoArgVars
            argvOk |-> TRUE, envOk |-> TRUE,       \* at the start of the run ARGV / ENVIRON held no element its Config does not assign
            dash |-> [open |-> FALSE, rest |-> <<>>],   \* the scanner of getline < "-" and the records it still holds
+           depth |-> 0,           \* user-function calls entered and not left (a run aborted inside functions abandons them)
            stdinUsed |-> FALSE,   \* this run's standard input was handed to a scanner (set anew by every call)
            mainEof |-> FALSE,     \* this run's main input was read to its end
            ctx |-> [check |-> FALSE, done |-> "no"]]   \* governing context; done: "no", "canceled", "deadline"
@@ -150,10 +166,14 @@ StInit == [vars |-> VarsInit, pr |-> PrInit, rnd |-> RndInit]
 \*     main input is opened, the others name no variable of the program), Environ home=hh lang=c, input on stdin, Execute.
 \* c6: Args "o9=X", Environ user=bob, Chars, input on stdin, Execute.
 \* c7: NoExec, NoFileWrites, NoFileReads, NoArgVars, input on stdin, Execute.
+\* c8 .. c11: zero Config, input on stdin, Execute, Vars depth = 400 / 700 / 1000 / 1001: how deep the kinds dp_* nest
+\*     calls of a user-defined function (every other configuration: 3).  CallLimit nested calls is what a NEW
+\*     interpreter allows; the call that would be one more is a run-time error.
 \* tag: which run of the history this is; it only makes the run's standard input its own.
 InfName == <<c_i, c_n, c_f>>                      \* the harness substitutes the real path (the program prints ARGV values without their directory)
 Cfg0 == [name |-> "c0", fsvar |-> FALSE, omode |-> "default", imode |-> ModeDefault, src |-> "stdin", api |-> "exec", tag |-> 1,
-         argv0 |-> <<>>, args |-> <<>>, env |-> NoEnv, gset |-> <<>>, chars |-> FALSE, sandbox |-> FALSE]
+         argv0 |-> <<>>, args |-> <<>>, env |-> NoEnv, gset |-> <<>>, chars |-> FALSE, sandbox |-> FALSE, depth |-> 3]
+CallLimit == 1000
 Cfgs == { Cfg0,
           [Cfg0 EXCEPT !.name = "c1", !.fsvar = TRUE, !.omode = "tsv", !.src = "file", !.api = "ctx", !.args = <<InfName>>],
           [Cfg0 EXCEPT !.name = "c2", !.imode = [m |-> "csv", hdr |-> TRUE]],
@@ -164,7 +184,11 @@ Cfgs == { Cfg0,
                        !.env = << <<c_h, c_h>>, <<c_c>>, Absent, Absent >>, !.gset = <<C_G, D5>>],
           [Cfg0 EXCEPT !.name = "c6", !.args = << <<c_o, D9, EQ, C_X>> >>,
                        !.env = << Absent, Absent, Absent, <<c_b, c_o, c_b>> >>, !.chars = TRUE],
-          [Cfg0 EXCEPT !.name = "c7", !.sandbox = TRUE] }
+          [Cfg0 EXCEPT !.name = "c7", !.sandbox = TRUE],
+          [Cfg0 EXCEPT !.name = "c8", !.depth = 400],
+          [Cfg0 EXCEPT !.name = "c9", !.depth = 700],
+          [Cfg0 EXCEPT !.name = "c10", !.depth = CallLimit],
+          [Cfg0 EXCEPT !.name = "c11", !.depth = CallLimit + 1] }
 CfgNames == {c.name : c \in Cfgs}
 CfgNamed(nm) == CHOOSE c \in Cfgs : c.name = nm
 WithTag(cfg, n) == [cfg EXCEPT !.tag = n]
@@ -179,6 +203,10 @@ StdinOf(cfg) == CASE cfg.name = "c0" -> <<c_x, SP, c_y, LF, D5, SP, D6, LF>> \o 
                   [] cfg.name = "c5" -> <<c_x, SP, c_y, LF, D2, SP, D1, LF>> \o TagField(cfg) \o <<SP, D9, LF>>
                   [] cfg.name = "c6" -> <<c_x, SP, c_y, LF, D4, SP, D2, LF>> \o TagField(cfg) \o <<SP, D9, LF>>
                   [] cfg.name = "c7" -> <<c_x, SP, c_y, LF, D6, SP, D3, LF>> \o TagField(cfg) \o <<SP, D9, LF>>
+                  [] cfg.name = "c8" -> <<c_x, SP, c_y, LF, D8, SP, D1, LF>> \o TagField(cfg) \o <<SP, D9, LF>>
+                  [] cfg.name = "c9" -> <<c_x, SP, c_y, LF, D9, SP, D1, LF>> \o TagField(cfg) \o <<SP, D9, LF>>
+                  [] cfg.name = "c10" -> <<c_x, SP, c_y, LF, D1, SP, D1, LF>> \o TagField(cfg) \o <<SP, D9, LF>>
+                  [] cfg.name = "c11" -> <<c_x, SP, c_y, LF, D1, SP, D2, LF>> \o TagField(cfg) \o <<SP, D9, LF>>
 InfContent == <<c_x, COLON, c_y, LF, D5, COLON, D6, LF>>   \* the file operand of c1
 MainInput(cfg) == IF cfg.src = "file" THEN InfContent ELSE StdinOf(cfg)
 RfContent == <<c_r, D1, LF, c_r, D2, LF, c_r, D3, LF>>
@@ -192,12 +220,15 @@ Kinds == {"plain", "setglob", "setfs", "csvhdr", "setmodes", "openout", "exit3",
           "exit_enderr", "exitbegin", "exit_endcancel",     \* exit N outside END, then END fails
           "sys", "pipe",                                    \* a command is started: system(), cmd | getline
           "nr_plain", "sr_first", "sr_only", "sr_time",     \* never rand(); srand(7) before the first rand(); srand(9) only; srand()
-          "av_write", "av_del"}                             \* the program adds / deletes elements of ARGV and ENVIRON
+          "av_write", "av_del",                             \* the program adds / deletes elements of ARGV and ENVIRON
+          "fmtc",                                           \* %c through a format string built at run time
+          "dp_ok", "dp_err", "dp_exit", "dp_cancel"}        \* cfg.depth nested calls, then return / run-time error / exit 3 / cancellation at the bottom
          \cup RangeKinds                                     \* the range pattern is opened and the run ends in every way
 \* kinds whose fingerprint does not call rand()
 NoFpRand == {"nr_plain", "sr_first", "sr_only", "sr_time"}
 \* kinds that cancel their own call: they need a context that can be cancelled whatever the configuration says
-CancelKinds == {"cancel", "exit_endcancel", "rg_cancel"}
+CancelKinds == {"cancel", "exit_endcancel", "rg_cancel", "dp_cancel"}
+DepthKinds == {"dp_ok", "dp_err", "dp_exit", "dp_cancel"}
 Errors == {"error", "canceled", "deadline"}
 ApiOf(kind, cfg) == IF kind \in CancelKinds /\ cfg.api \in {"exec", "ctxbg"} THEN "ctx" ELSE cfg.api
 \* how a run that makes its own context done ends: context.Canceled, or DeadlineExceeded for a deadline context
@@ -284,6 +315,35 @@ ArgvTo(av, lo, hi) ==
   IF lo >= hi THEN <<>>
   ELSE (IF lo + 1 > Len(av) \/ av[lo + 1] = Absent THEN <<MINUS>> ELSE av[lo + 1]) \o <<COMMA>> \o ArgvTo(av, lo + 1, hi)
 
+\* ---- formatted output: printf / sprintf under the run's own Config
+\* %c of a number / of a string (Config.Chars: "count using Unicode chars instead of bytes for index(), length(),
+\* match(), substr(), and printf %c"): the byte with that value / the first byte of the string, or with Chars the
+\* UTF-8 encoding of that code point / the first character of the string.  (Numbers below 256 only: what a byte
+\* conversion of a larger number yields is nobody's promise.)
+Utf8Of(n) == IF n < 128 THEN <<n>>
+             ELSE IF n < 2048 THEN <<192 + (n \div 64), 128 + (n % 64)>>
+             ELSE <<224 + (n \div 4096), 128 + ((n \div 64) % 64), 128 + (n % 64)>>
+PctCNum(n, chars) == IF chars THEN Utf8Of(n) ELSE <<n>>
+FirstCharLen(str) == IF str[1] >= 224 THEN 3 ELSE IF str[1] >= 192 THEN 2 ELSE 1     \* (well-formed UTF-8 only)
+PctCStr(str, chars) == IF str = <<>> THEN <<0>> ELSE IF chars THEN SubSeq(str, 1, FirstCharLen(str)) ELSE <<str[1]>>
+EAcute == <<195, 169>>           \* U+00E9
+Euro   == <<226, 130, 172>>      \* U+20AC
+\* The line fp() writes with
+\*   printf "%c%c|%c%c|", 233, 65, "\303\251x", "\342\202\254";  s = sprintf("%c%c", 233, "\303\251x")
+\*   printf "%s|%s|%d\n", s, 0.1234567, 3.9
+\* The format strings are the same text in every run on the interpreter; what they yield is decided by the Config
+\* (Chars) and the variables (CONVFMT) of the run that executes them.
+FmtLine(st) ==
+  LET ch == st.pr.chars
+  IN PctCNum(233, ch) \o PctCNum(65, ch) \o <<BAR>> \o PctCStr(EAcute \o <<c_x>>, ch) \o PctCStr(Euro, ch) \o <<BAR>>
+     \o PctCNum(233, ch) \o PctCStr(EAcute \o <<c_x>>, ch) \o <<BAR>> \o FmtNum(st.vars.convfmt) \o <<BAR, D3, LF>>
+\* kind fmtc: the same with a format string built at run time, f = "%c" "/%c":
+\*   s = sprintf(f, 200, "\342\202\254");  printf f "|%s\n", 233, "\303\251x", s
+FmtDynLine(st) ==
+  LET ch == st.pr.chars
+  IN PctCNum(233, ch) \o <<SLASH>> \o PctCStr(EAcute \o <<c_x>>, ch) \o <<BAR>>
+     \o PctCNum(200, ch) \o <<SLASH>> \o PctCStr(Euro, ch) \o <<LF>>
+
 \* what function fp() of the program prints in BEGIN
 Fingerprint(st, kind) ==
   << Chunk("g", st.vars.g), Chunk("ak", st.vars.ak),
@@ -304,7 +364,8 @@ Fingerprint(st, kind) ==
      ChunkIf(st.pr.envOk, "env", EnumEnv(st.vars.env)),
      ChunkIf(st.vars.fields = <<>>, "FIELDS", <<>>) >>
   \o (IF kind \in NoFpRand THEN <<>> ELSE <<RndChunk("rand", st.rnd)>>)
-  \o << Chunk("pl", <<>>), RawChunk(PrintLine(st, <<FmtNum(st.vars.ofmt), <<c_q>>>>)) >>
+  \o << Chunk("pl", <<>>), RawChunk(PrintLine(st, <<FmtNum(st.vars.ofmt), <<c_q>>>>)),
+        Chunk("pf", <<>>), RawChunk(FmtLine(st)) >>
 
 \* ------------------------------------------------------------- one run
 \* The run proceeds through phases (BEGIN, main loop, END); a phase result is
@@ -400,6 +461,8 @@ BeginPhase(st0, kind, cfg) ==
             IN [st |-> s1,
                 out |-> fp \o <<ChunkIf(st.pr.argvOk, "argvw", EnumArgv(s1.vars.argv)), ChunkIf(st.pr.envOk, "envw", EnumEnv(s1.vars.env))>>,
                 stop |-> ""]
+       [] kind = "fmtc" ->           \* a format string built at run time, through sprintf and printf
+            [st |-> st, out |-> fp \o <<Chunk("fc", <<>>), RawChunk(FmtDynLine(st))>>, stop |-> ""]
        [] kind = "midfile" ->
             LET gl == GetlineFile(st, "rf", RfContent)
             IN IF gl.err THEN [st |-> gl.st, out |-> fp, stop |-> ErrStop(gl.st)]
@@ -470,8 +533,24 @@ MainFrom(st, kind, cfg, recs, j, out, acc) ==       \* acc: running sum of $1 (p
          [] kind \in {"exit3", "exit_enderr", "exit_endcancel"} ->
               [st |-> [s1 EXCEPT !.pr.status = CASE kind = "exit3" -> 3 [] kind = "exit_enderr" -> 4 [] OTHER -> 5],
                out |-> o1, stop |-> "exit", acc |-> acc]
-         [] kind \in {"errfunc", "errforin"} ->
-              [st |-> [s1 EXCEPT !.pr.sp = 1], out |-> o1, stop |-> ErrStop(s1), acc |-> acc]
+         [] kind \in {"errfunc", "errforin"} ->     \* (errfunc fails one call deep)
+              [st |-> [s1 EXCEPT !.pr.sp = 1, !.pr.depth = IF kind = "errfunc" /\ @ < CallLimit THEN @ + 1 ELSE @],
+               out |-> o1, stop |-> ErrStop(s1), acc |-> acc]
+         \* emit("deep", deep(depth, mode)): deep(n, ..) calls itself down to n = 1 (depth nested calls), where it
+         \* returns (dp_ok: the calls add up to depth), divides by zero (dp_err), executes exit 3 (dp_exit), or
+         \* cancels the context of the call and loops (dp_cancel).  Calls still pending from an earlier run would
+         \* count: the call that would make more than CallLimit is a run-time error (all CallLimit calls then pending).
+         [] kind \in DepthKinds ->
+              IF s1.pr.depth + cfg.depth > CallLimit
+              THEN [st |-> [s1 EXCEPT !.pr.depth = CallLimit], out |-> o1, stop |-> ErrStop(s1), acc |-> acc]
+              ELSE (CASE kind = "dp_ok" ->
+                          MainFrom(s1, kind, cfg, recs, j + 1, Append(o1, Chunk("deep", IntStr(cfg.depth))), acc)
+                     [] kind = "dp_err" ->
+                          [st |-> [s1 EXCEPT !.pr.depth = @ + cfg.depth], out |-> o1, stop |-> ErrStop(s1), acc |-> acc]
+                     [] kind = "dp_exit" ->
+                          [st |-> [s1 EXCEPT !.pr.depth = @ + cfg.depth, !.pr.status = 3], out |-> o1, stop |-> "exit", acc |-> acc]
+                     [] kind = "dp_cancel" ->
+                          [st |-> [s1 EXCEPT !.pr.depth = @ + cfg.depth], out |-> o1, stop |-> OwnCtxErr(kind, cfg), acc |-> acc])
          [] kind = "cancel" ->
               [st |-> [s1 EXCEPT !.pr.sp = 1], out |-> o1, stop |-> OwnCtxErr(kind, cfg), acc |-> acc]
          [] kind = "p_func" ->
@@ -524,8 +603,11 @@ EndPhase(st, kind, cfg, out0, acc) ==
 
 \* Run the program in mode `kind` from state st (already prepared for the run: see ExecSpec / ExecCode).
 \* When the call has returned, the context it was given (if any) is cancelled / expires.
+\* (With CallLimit - 1 or more calls pending from an earlier run not even fp() could call emit(): the run fails before it
+\* prints anything.  Never so under ExecSpec, where no call is pending at the start of a run.)
 Run(st, kind, cfg) ==
-  LET bp == BeginPhase(st, kind, cfg)
+  LET bp == IF st.pr.depth + 2 > CallLimit THEN [st |-> st, out |-> <<>>, stop |-> ErrStop(st)]
+            ELSE BeginPhase(st, kind, cfg)
       mp == IF bp.stop # "" THEN [st |-> bp.st, out |-> bp.out, stop |-> bp.stop, acc |-> 0]    \* exit in BEGIN: no input is read
             ELSE LET om == OpenMain(bp.st, cfg) IN MainFrom(om.st, kind, cfg, om.recs, 1, bp.out, 0)
       ep == IF mp.stop \in Errors THEN [st |-> mp.st, out |-> mp.out, stop |-> mp.stop]
@@ -569,7 +651,9 @@ ExecSpec(st, kind, cfg) == Run(ApplyCfg([st EXCEPT !.pr = PrInit, !.vars.fields 
 \* ExecuteContext(Background) set checkCtx to false (ExecuteContext with a real context installs it in any case).
 \* "range": the flags of the range patterns are not a field of the interpreter at all -- a local of execActions,
 \* new for every pass over the input; in the model that is one more clear.
-CoreFields == {"scanner", "ins", "outs", "sp", "record", "match", "status", "hdr", "argc", "dash", "ctx", "range"}
+\* "depth": the count of nested calls (the code also counts it down while an error propagates through the calls; in
+\* the model an aborted run abandons its calls, and the clear is what makes the next run start with none).
+CoreFields == {"scanner", "ins", "outs", "sp", "record", "match", "status", "hdr", "argc", "dash", "ctx", "range", "depth"}
 ResetCore(pr, clears) ==
   [pr EXCEPT !.scanner = IF "scanner" \in clears THEN FALSE ELSE @,
              !.ins     = IF "ins" \in clears THEN {} ELSE @,
@@ -586,6 +670,7 @@ ResetCore(pr, clears) ==
              !.hdr     = IF "hdr" \in clears THEN <<>> ELSE @,
              !.argc    = IF "argc" \in clears THEN 0 ELSE @,
              !.rng     = IF "range" \in clears THEN FALSE ELSE @,
+             !.depth   = IF "depth" \in clears THEN 0 ELSE @,
              !.dash    = IF "dash" \in clears THEN [open |-> FALSE, rest |-> <<>>] ELSE @]
 ExecCode(st, kind, cfg, clears) ==
   Run(ApplyCfg([st EXCEPT !.pr = ResetCore(@, clears),
